@@ -747,6 +747,9 @@ def fam_stream(seed, i):
         # the actor's own timers tick into the mailbox next to the stream
         cfg["sscr"] = [cfg["sscr"][0] + [eff(rng.choice(["interval", "interval_with", "delayed_send"]), rng.randint(1, 2), f"t{k}") for k in range(rng.choice([1, 2]))]]
         sc["horizon"] = 10
+        ticking_drop = rng.random() < 0.6       # ... and in the end nobody holds the actor: its timers do not either
+    else:
+        ticking_drop = False
     slow = rng.random() < 0.25
     if slow:
         # a handler timeout configured on the builder before the stream is attached: stream-attached actors run
@@ -775,7 +778,9 @@ def fam_stream(seed, i):
     for c in names:
         p = Prog(rng, c, handles.get(c, {}), w, scripts, cnt)
         p.cancel_p = 0.2          # calls / sends given up by the client while the actor is busy with an item
-        sc["clients"][c] = p.run(rng.randint(1, 8))
+        sc["clients"][c] = p.run(rng.randint(1, 8), drop_all=ticking_drop)
+    if ticking_drop and not cfg["owning"] and not any(o["op"] == "drop" and o.get("h") == "h0" for o in main):
+        main.append({"op": "drop", "h": "h0"})
     return sc
 
 
